@@ -379,6 +379,14 @@ def m_slice_last(M, a, c, fr):
     return opt_some(Ref(Cell(xs[-1]))) if xs else opt_none()
 
 
+def m_slice_reverse(M, a, c, fr):
+    v = M.load(a[0])
+    if not isinstance(v, VecV): raise Inconclusive('reverse of %r' % (v,))
+    n = M.concrete(v.len, 'reverse.len')
+    v.elems[:n] = list(reversed(v.elems[:n]))
+    return []
+
+
 def m_join(M, a, c, fr):
     xs = seq_elems(M, deref(M, a[0])); sep = deref(M, a[1])
     out = []
@@ -535,6 +543,9 @@ def m_strip_prefix(M, a, c, fr):
 
 
 def m_starts_with(M, a, c, fr):
+    x = deref(M, a[0])
+    if isinstance(x, Tok):       # opaque string: the answer is an uninterpreted predicate of (string, pattern)
+        return z3.Bool('starts_with(%s,%r)' % (x.name, deref(M, a[1])))
     bs, pat = sbytes(M, a[0]), sbytes(M, a[1])
     if len(bs) < len(pat): return z3.BoolVal(False)
     return z3.And([bs[t] == pat[t] for t in range(len(pat))]) if pat else z3.BoolVal(True)
@@ -735,7 +746,7 @@ MODELS = [
     (r'core::slice::<impl \[.*\]>::get::<usize>', m_slice_get),
     (r'core::slice::<impl \[.*\]>::split_first', m_split_first), (r'core::slice::<impl \[.*\]>::split_last', m_split_last),
     (r'core::slice::<impl \[.*\]>::first', m_slice_first), (r'core::slice::<impl \[.*\]>::last', m_slice_last),
-    (r'(std|alloc)::slice::<impl \[.*\]>::join::<&str>', m_join),
+    (r'(std|alloc)::slice::<impl \[.*\]>::join::<&str>', m_join), (r'core::slice::<impl \[.*\]>::reverse', m_slice_reverse),
     # BTreeMap (array model)
     (r'BTreeMap::<.*>::new', m_map_new), (r'<BTreeMap<.*> as Default>::default', m_map_new),
     (r'BTreeMap::<.*>::entry', m_map_entry),
@@ -743,6 +754,7 @@ MODELS = [
     (r"std::collections::btree_map::OccupiedEntry::<.*>::get", m_occupied_get),
     (r'BTreeMap::<.*>::get::<.*>', m_map_get), (r'BTreeMap::<.*>::insert', m_map_insert), (r'BTreeMap::<.*>::iter', m_map_iter),
     # Option / Result
+    (r'<(std::option::)?Option<.*> as Default>::default', lambda M, a, c, fr: opt_none()),
     (r'Option::<.*>::map::<.*>', m_opt_map), (r'Option::<.*>::map_or::<.*>', m_opt_map_or),
     (r'Option::<.*>::filter::<.*>', m_opt_filter), (r'Option::<.*>::and_then::<.*>', m_opt_and_then), (r'Option::<.*>::ok_or::<.*>', m_opt_ok_or), (r'Option::<.*>::copied', m_opt_copied),
     (r'Option::<.*>::unwrap_or', m_opt_unwrap_or), (r'Option::<.*>::cloned', m_opt_cloned),
